@@ -315,6 +315,21 @@ fn oracle_step(w: &World, ctx: &mut Ctx, resps: &[(u64, String)], _act: &str) {
     }
 }
 
+/// can this scripted action be taken in the real system right now? (corpus lines and replays recorded on
+/// another tree must not feed the model steps that never happened)
+fn applicable(w: &mut World, act: &str) -> bool {
+    let toks = parked_tokens(w);
+    let (parts, running) = { let n = w.node.lock().unwrap(); (n.parts_of(&w.hash_hex), n.pay_running.get(&w.hash_hex).copied().unwrap_or(0) > 0) };
+    if let Some(t) = act.strip_prefix("s:") { return toks.iter().any(|x| x.1 == t && !x.2); }
+    if let Some(t) = act.strip_prefix("d:") { return toks.iter().any(|x| x.1 == t && x.2); }
+    if act.len() > 3 && act.starts_with('f') && &act[2..3] == ":" { let t = &act[3..]; return toks.iter().any(|x| x.1 == t && !x.2); }
+    if act.starts_with("pe:") { return running && toks.iter().any(|x| x.1 == "pay" && !x.2); }
+    if act.starts_with("ar:") || act.starts_with("tm") || act.starts_with("tw") || act.starts_with("bl") || act == "cr" { return true; }
+    if let Some(id) = act.strip_prefix("c") { return running && id.parse::<u64>().map(|i| !parts.iter().any(|p| p.id == i)).unwrap_or(false); }
+    if let Some(rest) = act.strip_prefix("r") { let id: u64 = rest.split(':').next().unwrap_or("").parse().unwrap_or(u64::MAX); return parts.iter().any(|p| p.id == id && p.st == PSt::Pending); }
+    false
+}
+
 pub enum Step { Continue, Crash, Stop }
 
 /// apply one action token to the real system
@@ -563,7 +578,7 @@ pub fn run_case(ctx: &mut Ctx, rng: &mut Rng, sock: &str, open: bool, cfg: SCfg,
             if w.life == 0 { let o = observe(&mut w, ctx, &mut pay_seen, "boot").await; w.obs.push(o); }
             loop {
                 if script.len() == 1 && g.hold_first > 0 { hold_pending = true; }
-                let act = if let Some(a) = script.pop_front() { a } else if replaying { return false; } else {
+                let act = if let Some(a) = script.pop_front() { if !applicable(&mut w, &a) { ctx.count("script:skipped-inapplicable"); continue; } a } else if replaying { return false; } else {
                     if hold_pending { hold_pending = false; let n = w.node.lock().unwrap(); w.hold = n.parked.iter().filter(|p| p.method != "getinfo" && p.served.is_none()).take(g.hold_first).map(|p| p.seq).collect(); }
                     if phase == Phase::Random && step >= len { phase = Phase::Drain; phase_steps = 0; }
                     if phase != Phase::Random { w.hold.clear(); }
